@@ -470,3 +470,15 @@ Theorem C19_semantics_loop : forall zr pool allow types pre f post iv cb af,
       = ssa_loop data dzero fop ivnext pre f iv cb n env v.
 Proof. exact func_loop_semantics. Qed.
 Print Assumptions C19_semantics_loop.
+
+(* ... and it applies to the example loop: for every trip count the returned value %4 is the same *)
+Theorem C19_semantics_loop_example :
+  exists af, allocate_func true [7; 6; 5] false ex_fn = Ok af /\
+  forall (data : Type) (dzero : data) (fop : nat -> nat -> list data -> data) (ivnext : data -> data -> data)
+         (n : nat) (env : value -> data) (rf : Z -> data),
+    (forall v, live (Hop ex_f :: f_body ex_f ++ Yop ex_f :: ex_post) v -> read_reg data dzero true (asg_of af) rf v = env v) ->
+    (forall v, In v (zero_consts (ex_pre ++ [Hop ex_f])) -> env v = dzero) ->
+    read_reg data dzero true (asg_of af) (regs_loop data dzero fop ivnext true (asg_of af) ex_pre ex_f 5%nat n rf) 4%nat
+    = ssa_loop data dzero fop ivnext ex_pre ex_f 5%nat [6%nat] n env 4%nat.
+Proof. exact loop_semantics_example. Qed.
+Print Assumptions C19_semantics_loop_example.
